@@ -113,20 +113,34 @@ class EW:
       t[nm] = t.get(nm, 0) + c
     return EW(t, {'i': 'j', 'j': 'i'}.get(self.shape, self.shape))
 
+  def _unit(self):
+    """(leading coefficient, self / leading coefficient): sums are linear,
+    so the atom that names a sum is keyed by the polynomial scaled to a
+    leading coefficient of 1 and the factor is kept outside"""
+    if not self.terms:
+      return Fraction(0), self
+    lead = sorted(self.terms.items())[0][1]
+    return lead, self.scale(Fraction(1) / lead)
+
   def rowsum(self, keepdims):
     """sum over j (axis=1)"""
     if self.shape != 'mat':
       return None
-    return EW.atom('rs[%r]' % (self.key(),), 'i' if keepdims else 'v')
+    lead, u = self._unit()
+    return EW.atom('rs[%r]' % (u.key(),),
+                   'i' if keepdims else 'v').scale(lead)
 
   def colsum(self, keepdims=False):
     """sum over i (axis=0)"""
     if self.shape != 'mat':
       return None
-    return EW.atom('cs[%r]' % (self.key(),), 'j' if keepdims else 'v')
+    lead, u = self._unit()
+    return EW.atom('cs[%r]' % (u.key(),),
+                   'j' if keepdims else 'v').scale(lead)
 
   def total(self):
-    return EW.atom('tot[%r]' % (self.key(),), 's')
+    lead, u = self._unit()
+    return EW.atom('tot[%r]' % (u.key(),), 's').scale(lead)
 
   def __repr__(self):
     if not self.terms:
